@@ -301,7 +301,9 @@ Theorem C12_table_suffix_once : forall gate h0 inp,
 Proof. exact table_suffix_once. Qed.
 Print Assumptions C12_table_suffix_once.
 
-(* ---- offsets lie inside the text of the HED-string context the issue carries -------- *)
+(* ---- offsets refer to the HED-string context the issue finally carries ------------------
+   char_in_ctx i: the tag the issue names occurs in THAT string (get_org_span finds it there) and
+   the offsets lie inside the tag's span in it, hence inside its text *)
 Theorem C12_sidecar_offsets_inside : forall sort_early h0 inp,
   hed_of h0 = None ->
   Forall (fun c => Forall (fun s => Forall ev_no_tag (rfs_events s)) (rfc_strs c)) (si_refs inp) ->
@@ -329,6 +331,26 @@ Theorem C12_from_strings_span_inside : forall pre p post id a b,
     sub (join [ch_comma] (map hs_text (pre ++ p :: post))) s e = sub (hs_text p) a b.
 Proof. exact from_strings_span_inside. Qed.
 Print Assumptions C12_from_strings_span_inside.
+
+(* the loop over {column}-reference combinations: each substituted text is validated and decorated
+   under its OWN HED-string context (a new list per combination) ... *)
+Theorem C12_combos_own_offsets : forall h3 combos,
+  Forall (fun cb => Forall (raw_wf (fst cb)) (snd cb)) combos ->
+  all_ok char_in_ctx (combos_own true h3 combos).
+Proof. exact combos_own_loc. Qed.
+Print Assumptions C12_combos_own_offsets.
+
+(* ... and this is needed: with ONE list accumulating over the combinations the issues of earlier
+   texts are decorated again under every later text; they end up naming a text that does not contain
+   their tag (witness "{stim}, Black, Black" with stim = Blue | Item/Object) *)
+Theorem C12_combos_accum_refuted :
+  Forall (fun cb => Forall (raw_wf (fst cb)) (snd cb)) wc_combos /\
+  (exists out, combos_own true wt_handler wc_combos = Ok out /\ Forall char_in_ctx out /\
+               map i_char out = [Some (13, 18)]) /\
+  exists out i, combos_accum true wt_handler wc_combos [] = Ok out /\ In i out /\
+                i_char i = Some (13, 18) /\ has_hed_ctx i hs_t2 /\ ~ char_in_ctx i.
+Proof. exact combos_accum_refuted. Qed.
+Print Assumptions C12_combos_accum_refuted.
 
 (* ---- errors only = error subset of the run with warnings ---------------------------- *)
 (* sidecar: structural kinds are registered ones at their default severity; the definition
@@ -418,3 +440,10 @@ Example C12_table_errors_only_witness_ok :
     map i_sev out = [sev_error; sev_warning] /\
     table_validate true (with_warn wt_handler false) wt_input = Ok (filter is_error out).
 Proof. exact table_errors_only_witness_ok. Qed.
+
+(* the issues of _check_definitions_bad_spot, produced last, are sorted into place *)
+Example C12_sidecar_badspot_sorted_into_place :
+  exists out, sidecar_validate true true wt_handler wb_input = Ok out /\
+    map (key_at CSidecarCol) out = [KS [98;99;111;108]%N; KS [99;99;111;108]%N] /\
+    StronglySorted (fun a b => issue_leb false a b = true) out.
+Proof. exact sidecar_badspot_sorted_into_place. Qed.
